@@ -6,7 +6,7 @@
 PROPS = {
     "C04": {
         "module": "PsVerif.Props.C04",
-        "slices": [("timelock", 3000, 200000), ("route", 2000, 100000), ("paygate", 500, 20000)],
+        "slices": [("timelock", 3000, 200000), ("route", 2000, 100000), ("paygate", 500, 20000), ("payloop", 200, 6000)],
         "monitor": (400, 12000),
         "technique": "Lean 4 theorems over the generated timelock policy table and hand-written models of the window/invoice/route guards (uint32/uint64 arithmetic explicit); differential correspondence on the real functions and on the real taker machines driven to the pay decision; Go monitor",
         "text": "Proved for all uint32 anchors/tips, all int64 CLTVs: a pay-loop iteration calls the payment only with a stored anchor and anchor <= tip < anchor+60; an accepted invoice has 0 <= final CLTV <= 29 and the exact amount; with limit 32 the CLN hop delay is final+1 <= 32 and the LND request needs final+3 <= 32 and carries CltvLimit 33, MaxParts 1; (conf+10080)-tip > 10021 for conf > anchor, so the HTLC resolves before the refund under the stated block-rate assumptions; the legacy policy never allows a new payment. Constants are regenerated from the running code (every chain x every uint8 version).",
@@ -15,7 +15,7 @@ PROPS = {
     },
     "C05": {
         "module": "PsVerif.Props.C05",
-        "slices": [("paygate", 500, 20000)],
+        "slices": [("paygate", 500, 20000), ("payloop", 200, 6000)],
         "monitor": (400, 12000),
         "technique": "Lean 4 theorems over models of the Bitcoin pay guards with uint32 wrap; counter-example theorems for the full statement; differential paygate slice on the real taker machine; Go monitor replaying the boundary witnesses",
         "text": "PARTIAL: proved what the two guards give (final CLTV <= 504, exact amount, start != 0, pay height <= start+504 when start+504 does not wrap) and the property under the extra hypothesis start+504+final+pad < conf+1008. The full statement is false on this tree: three boundary findings (CLN with final 504; LND padding even for the honest final 503), each proved as a Lean counter-example and replayed on the real machine; recorded as known findings because the constants are protocol parameters.",
